@@ -37,6 +37,8 @@ type scenario struct {
 	rawResp map[string][]string
 	post    []func(e *sxg.Exchange)
 	names   []string
+	absT    int64 // verification time given absolutely (scenarios with timestamps before the epoch)
+	hasAbsT bool
 }
 
 func newScenario(r *rand.Rand, ver version.Version) *scenario {
@@ -62,6 +64,17 @@ func deviations(r *rand.Rand, ver version.Version) []deviation {
 		{"t=expires-1s", true, -1, 0}, {"t=expires", true, 0, 0}, {"t=expires+1ns", true, 0, 1}, {"t=expires+1s", true, 1, 0}} {
 		t := t
 		add(t.n, func(sc *scenario) { sc.fromExp, sc.tOff, sc.ns = t.exp, t.off, t.ns }, nil)
+	}
+	// signed timestamps: lifetimes that only fit 64 bits modulo 2^64, windows that start before the epoch
+	for _, w := range []struct {
+		n         string
+		date, exp int64
+		t         int64
+	}{{"dates wrap: -2^62..2^62", -(1 << 62), 1 << 62, 1600000000}, {"dates wrap: -2^63+1..t+1h", -(1<<63 - 1), 1600003600, 1600000000},
+		{"dates wrap: -2^63+1..2^63-1", -(1<<63 - 1), 1<<63 - 1, 1600000000}, {"date negative, short: -5..5 at 0", -5, 5, 0},
+		{"date negative, 7d+1: -604800..1 at 0", -604800, 1, 0}, {"date negative, 7d: -604799..1 at 1", -604799, 1, 1}} {
+		w := w
+		add(w.n, func(sc *scenario) { sc.sp.date, sc.sp.expires, sc.absT, sc.hasAbsT = w.date, w.exp, w.t, true }, nil)
 	}
 	for _, l := range []int64{604799, 604800, 604801, 1} {
 		l := l
@@ -187,6 +200,9 @@ func runScenario(ctx *verCtx, sc *scenario, kc *keyCert) {
 	t := sc.sp.date + sc.tOff
 	if sc.fromExp {
 		t = sc.sp.expires + sc.tOff
+	}
+	if sc.hasAbsT {
+		t = sc.absT
 	}
 	ctx.emitVer(e, kc, t, sc.ns, signed, true, nil, false, false, strings.Join(sc.names, " & "))
 }
